@@ -374,7 +374,11 @@ class EIG(BaseRoutine):
                 logger.debug(f"Set {param.name} = {param.v[pos]}")
 
             self.system.TDS.init()
-            self.system.TDS.itm_step()
+
+            # evaluate the Jacobians with the new values at the operating point, without integrating a step
+            self.system.TDS.fg_update(self.system.exist.pflow_tds)
+            self.system.j_update(self.system.exist.pflow_tds)
+
             self.calc_As()
             mu, N = self.calc_eig(self.As)
 
